@@ -251,6 +251,57 @@ fn ragged_rows(rep: &mut Report, rec: &mut Rec, len: usize, n: i64) {
             rep.violation("C07/index-over-ragged-rows-differs-from-rule", json!({"expression": text, "rows": doc, "expected": want, "got": shown}));
         }
     }
+    // several indexes picked from each row at once; and a per-row slice over rows that are not all arrays
+    {
+        let m = -n - 1;
+        let text = format!("@[*].[[{}], [{}], [0]]", n, m);
+        let cell = |r: &Vec<i64>, k: i64| -> String {
+            let j = if k < 0 { r.len() as i64 + k } else { k };
+            if j >= 0 && (j as usize) < r.len() { r[j as usize].to_string() } else { "null".to_string() }
+        };
+        let want = format!("[{}]", rows.iter().map(|r| format!("[{},{},{}]", cell(r, n), cell(r, m), cell(r, 0))).collect::<Vec<_>>().join(","));
+        rep.evaluations += 1;
+        let got = guarded(|| jmespath::compile(&text).and_then(|e| e.search(rcvar_of(&doc))));
+        let shown = match &got {
+            Ok(Ok(v)) => v.to_string(),
+            other => format!("{:?}", other.as_ref().map(|r| r.as_ref().map(|v| v.to_string()).map_err(|e| e.to_string()))),
+        };
+        if shown == want {
+            rep.count("agree_ragged_multi_index");
+        } else {
+            rep.violation("C07/index-over-ragged-rows-differs-from-rule", json!({"expression": text, "rows": doc, "expected": want, "got": shown}));
+        }
+        // rows of every kind: a per-row slice applies to the arrays and drops the rest
+        let mut mixed: Vec<Value> = vec![];
+        for (i, r) in rows.iter().enumerate() {
+            mixed.push(json!(r));
+            mixed.push([json!("abc"), json!({"a": 1}), Value::Null, json!(7), json!(true)][i % 5].clone());
+        }
+        let mdoc = Value::Array(mixed);
+        let (a, b) = (n.min(3), n.max(-3) + 2);
+        let text = format!("@[*][{}:{}]", a, b);
+        let want = format!(
+            "[{}]",
+            rows.iter()
+                .map(|r| {
+                    let idx = slice_indices(r.len() as i128, Some(a as i128), Some(b as i128), 1);
+                    format!("[{}]", idx.iter().map(|i| r[*i as usize].to_string()).collect::<Vec<_>>().join(","))
+                })
+                .collect::<Vec<_>>()
+                .join(",")
+        );
+        rep.evaluations += 1;
+        let got = guarded(|| jmespath::compile(&text).and_then(|e| e.search(rcvar_of(&mdoc))));
+        let shown = match &got {
+            Ok(Ok(v)) => v.to_string(),
+            other => format!("{:?}", other.as_ref().map(|r| r.as_ref().map(|v| v.to_string()).map_err(|e| e.to_string()))),
+        };
+        if shown == want {
+            rep.count("agree_per_row_slice_over_mixed_rows");
+        } else {
+            rep.violation("C07/slice-in-context-differs-from-rule", json!({"expression": text, "rows": mdoc, "expected": want, "got": shown}));
+        }
+    }
     // as a sort key: rows that have the element, ordered by it (every row has one when n is 0 / -1 and no row is empty)
     if rows.iter().all(|r| pick(r).is_some()) && rows.len() > 1 {
         let text = format!("sort_by(@, &[{}])[*][0]", n);
